@@ -73,7 +73,7 @@ class SimThread:
 class Chooser:
     """Decides, at each yield point, which simulated thread runs next."""
 
-    def choose(self, step: int, cur: Optional[int], runnable: list[int]) -> int:
+    def choose(self, step: int, cur: Optional[int], runnable: list[int], kind: str = "") -> int:
         raise NotImplementedError
 
 
@@ -84,7 +84,7 @@ class ReplayChooser(Chooser):
     def __init__(self, schedule: list[int]):
         self.schedule = schedule
 
-    def choose(self, step, cur, runnable):
+    def choose(self, step, cur, runnable, kind=""):
         c = self.schedule[step] if step < len(self.schedule) else -1
         if c in runnable:
             return c
@@ -97,7 +97,7 @@ class RandomChooser(Chooser):
     def __init__(self, rng: random.Random):
         self.rng = rng
 
-    def choose(self, step, cur, runnable):
+    def choose(self, step, cur, runnable, kind=""):
         return runnable[self.rng.randrange(len(runnable))]
 
 
@@ -106,10 +106,28 @@ class StickyChooser(Chooser):
         self.rng = rng
         self.p = p_stay
 
-    def choose(self, step, cur, runnable):
+    def choose(self, step, cur, runnable, kind=""):
         if cur in runnable and self.rng.random() < self.p:
             return cur
         return runnable[self.rng.randrange(len(runnable))]
+
+
+class RetBiasChooser(Chooser):
+    """Race-directed: compute-then-publish windows open when a function of the code under test has computed
+    its value and is about to hand it to its caller, and close when the caller stores it.  Switch away with
+    high probability exactly there (yield kind "ret") and rarely elsewhere."""
+
+    def __init__(self, rng: random.Random, p_ret: float = 0.5, p_other: float = 0.03):
+        self.rng = rng
+        self.p_ret = p_ret
+        self.p_other = p_other
+
+    def choose(self, step, cur, runnable, kind=""):
+        p = self.p_ret if kind == "ret" else (0.3 if kind == "op" else self.p_other)
+        if cur in runnable and self.rng.random() >= p:
+            return cur
+        others = [t for t in runnable if t != cur] or runnable
+        return others[self.rng.randrange(len(others))]
 
 
 class PCTChooser(Chooser):
@@ -128,7 +146,7 @@ class PCTChooser(Chooser):
             self.prio[t] = 1.0 + self.rng.random()
         return self.prio[t]
 
-    def choose(self, step, cur, runnable):
+    def choose(self, step, cur, runnable, kind=""):
         while self.change and self.change[0] <= step:
             self.change.pop(0)
             if cur is not None:
@@ -144,6 +162,8 @@ def make_chooser(kind: str, rng: random.Random, horizon: int = 400) -> Chooser:
         return StickyChooser(rng, 0.9)
     if kind == "sticky50":
         return StickyChooser(rng, 0.5)
+    if kind == "retbias":
+        return RetBiasChooser(rng)
     if kind.startswith("pct"):
         return PCTChooser(rng, int(kind[3:] or 2), horizon)
     raise HarnessError(f"unknown scheduling strategy {kind}")
@@ -200,9 +220,9 @@ class Scheduler:
         if self.fatal is not None:
             raise self.fatal
 
-    def _decide(self, cur: Optional[SimThread]) -> int:
+    def _decide(self, cur: Optional[SimThread], kind: str = "") -> int:
         runnable = self.runnable()
-        c = self.chooser.choose(self.step, cur.idx if cur is not None else None, runnable)
+        c = self.chooser.choose(self.step, cur.idx if cur is not None else None, runnable, kind)
         if c not in runnable:
             raise HarnessError("chooser returned a non-runnable thread")
         self.schedule.append(c)
@@ -222,7 +242,7 @@ class Scheduler:
             self.trace_digest.update(repr((me.idx, kind, detail)).encode())
         if self.on_yield is not None:
             self.on_yield(me, kind, detail)
-        nxt = self._decide(me)
+        nxt = self._decide(me, kind)
         if nxt == me.idx:
             return
         self.switches += 1
@@ -303,6 +323,8 @@ def code_objects_of_module(mod: types.ModuleType) -> list[types.CodeType]:
             for f in (obj.fget, obj.fset, obj.fdel):
                 if f is not None:
                     visit(f, depth + 1)
+        elif isinstance(getattr(obj, "func", None), types.FunctionType):  # functools.cached_property / partial
+            visit(obj.func, depth + 1)
         elif isinstance(obj, types.FunctionType):
             add_code(obj.__code__)
             if obj.__closure__:
@@ -329,9 +351,14 @@ def code_objects_of_module(mod: types.ModuleType) -> list[types.CodeType]:
 
 
 class LineTracer:
-    """Turns LINE events of selected code objects into yield points."""
+    """Turns events of selected code objects into yield points.
 
-    def __init__(self, sched: Scheduler, modules: list[types.ModuleType]):
+    granularity "line": LINE events (pre-emption between source lines) + PY_RETURN events (a function of the
+    code under test has computed its value and is about to hand it to its caller - the window in which
+    compute-then-publish races live);  granularity "instr": every bytecode INSTRUCTION + PY_RETURN, which is
+    the granularity at which the GIL can really switch threads."""
+
+    def __init__(self, sched: Scheduler, modules: list[types.ModuleType], granularity: str = "line"):
         self.sched = sched
         self.codes: list[types.CodeType] = []
         for m in modules:
@@ -340,31 +367,61 @@ class LineTracer:
         self.mon = sys.monitoring
         self.tool = self.mon.DEBUGGER_ID
         self.lines = 0
+        self.granularity = granularity
 
     def install(self) -> None:
         mon = self.mon
+        ev = mon.events
         if mon.get_tool(self.tool) is not None:
             mon.free_tool_id(self.tool)
         mon.use_tool_id(self.tool, "verif-sim")
-        mon.register_callback(self.tool, mon.events.LINE, self._cb)
+        mask = ev.PY_RETURN
+        mon.register_callback(self.tool, ev.PY_RETURN, self._cb_ret)
+        if self.granularity == "instr":
+            mask |= ev.INSTRUCTION
+            mon.register_callback(self.tool, ev.INSTRUCTION, self._cb_instr)
+        else:
+            mask |= ev.LINE
+            mon.register_callback(self.tool, ev.LINE, self._cb)
+        self.mask = mask
         for c in self.codes:
-            mon.set_local_events(self.tool, c, mon.events.LINE)
+            mon.set_local_events(self.tool, c, mask)
         self.enabled = True
 
     def uninstall(self) -> None:
         mon = self.mon
+        ev = mon.events
         self.enabled = False
         for c in self.codes:
             mon.set_local_events(self.tool, c, 0)
-        mon.register_callback(self.tool, mon.events.LINE, None)
+        for e in (ev.LINE, ev.PY_RETURN, ev.INSTRUCTION):
+            mon.register_callback(self.tool, e, None)
         mon.free_tool_id(self.tool)
 
-    def _cb(self, code: types.CodeType, lineno: int):
+    def _ok(self):
         if not self.enabled:
             return None
         t = current()
         if t is None or t.no_preempt or t.done:
             return None
+        return t
+
+    def _cb(self, code: types.CodeType, lineno: int):
+        if self._ok() is None:
+            return None
         self.lines += 1
         self.sched.yield_point("line", (code.co_name, lineno))
+        return None
+
+    def _cb_instr(self, code: types.CodeType, offset: int):
+        if self._ok() is None:
+            return None
+        self.lines += 1
+        self.sched.yield_point("instr", (code.co_name, offset))
+        return None
+
+    def _cb_ret(self, code: types.CodeType, offset: int, retval: object):
+        if self._ok() is None:
+            return None
+        self.sched.yield_point("ret", (code.co_name, offset))
         return None
